@@ -33,7 +33,9 @@ ASSUMPTIONS = [
 ]
 MUST_REACH = {"resolutions_checked": 2000, "name_lookups_checked": 1000, "temporary_caps_consumed": 50,
               "seed_flows": 100, "proxy_only_stripped": 30, "wrapper_caps_checked": 30, "proxy_cap_reregistrations": 30,
-              "prefix_related_resolutions": 50, "regranted_names": 30, "old_urls_regranted": 20, "name_lookups_after_consumption_with_survivors": 10, "wrapper_redirects_checked": 30}
+              "prefix_related_resolutions": 50, "regranted_names": 30, "old_urls_regranted": 20, "name_lookups_after_consumption_with_survivors": 10, "wrapper_redirects_checked": 30,
+              "regions_reannounced": 50, "old_seeds_regranted": 10, "regions_registered_without_seed": 10,
+              "grid_wide_asset_urls_granted": 20, "wrapper_uniqueness_checks": 30}
 
 NAMES = ["Seed2", "EventQueueGet", "FetchInventory2", "GetTexture", "GetMesh2", "ViewerAsset", "UpdateScriptAgent",
          "ObjectMedia", "SimulatorFeatures", "UploadBakedTexture"]
@@ -45,7 +47,8 @@ class MRegion:
         self.sess_idx = sess_idx
         self.idx = idx
         self.region = region
-        self.grants = [("Seed", seed_url, CapType.NORMAL)]    # newest first
+        self.grants = [("Seed", seed_url, CapType.NORMAL)] if seed_url else []    # newest first
+        self.addr = region.circuit_addr
 
     def add(self, name, url, cap_type):
         self.grants.insert(0, (name, url, cap_type))
@@ -170,6 +173,18 @@ def check_name_lookup(ctx, m, name, wit):
     ctx.nontrivial(("name", name))
 
 
+def check_wrapper_unique(ctx, regions, m, name, wurl, wit):
+    """The wrapper URL exists to tell regions apart where the granted URL cannot: no two regions may be shown the same one."""
+    ctx.count("wrapper_uniqueness_checks")
+    for other in regions:
+        if other is m:
+            continue
+        if any(u == wurl for (n, u, t) in other.grants if t == CapType.WRAPPER):
+            ctx.violation("wrapper-url-shared-between-regions", "two regions were given the same wrapper URL", dict(
+                wit, name=name, wrapper=wurl, other_region=other.idx, other_session=other.sess_idx))
+            return
+
+
 def check_wrapper_stands_for(ctx, rig, name, granted_url, wrapper_url, wit):
     """A request the viewer makes through the presented wrapper URL must end up at the URL the simulator granted."""
     import copy
@@ -236,6 +251,10 @@ def seed_flow(ctx, rng, rig, m, regions, sessions, wit):
     for n in upstream:
         if rng.random() < 0.9:
             granted[n] = rand_url(rng, regions)
+            if n in ("GetTexture", "GetMesh2", "ViewerAsset") and rng.random() < 0.5:
+                # on the main grid the asset capabilities are the same CDN URL for every region and every avatar
+                granted[n] = f"http://asset-cdn.example.invalid/cap/{n.lower()}"
+                ctx.count("grid_wide_asset_urls_granted")
     if rng.random() < 0.1:
         granted["NotAUrl"] = 5
     # the mitmproxy side keeps its own flow object, updated from the callback state (cap data in serialized form)
@@ -265,6 +284,7 @@ def seed_flow(ctx, rng, rig, m, regions, sessions, wit):
             ctx.count("wrapper_caps_checked")
             wurl = shown[n]
             m.add(n + "ProxyWrapper", wurl, CapType.WRAPPER)
+            check_wrapper_unique(ctx, regions, m, n, wurl, wit)
             if wurl == u:
                 ctx.violation("asset-cap-not-wrapped", "an asset capability was shown to the viewer without a wrapper URL",
                               dict(wit, name=n))
@@ -294,8 +314,12 @@ def run_sequence(ctx, seed):
         for si, sess in enumerate(sessions):
             r0 = sess.regions[0]
             regions.append(MRegion(si, len(regions), r0, r0.cap_urls["Seed"]))
-            for k in range(1, 3):
+            for k in range(1, 4):
                 seed_url = f"https://sim{si}{k}.example.invalid:12043/cap/seed-{si}{k}-{rng.getrandbits(16):04x}"
+                if k == 3 or (k == 2 and si == 1):
+                    # a neighbour the session only knows by address and handle so far; its seed arrives later ("reregister")
+                    seed_url = None
+                    ctx.count("regions_registered_without_seed")
                 r = sess.register_region(circuit_addr=(f"10.{si + 1}.0.{k + 1}", 13000 + k), seed_url=seed_url,
                                          handle=((2000 + si) << 32) | (1000 + k))
                 regions.append(MRegion(si, len(regions), r, seed_url))
@@ -303,10 +327,37 @@ def run_sequence(ctx, seed):
         for step in range(40):
             m = rng.choice(regions)
             op = rng.choices(["grant", "temp", "proxy", "name", "resolve", "resolve_unrelated", "seedflow", "wrapper",
-                              "regrant_old", "temp_burst"], weights=[4, 2, 2, 4, 7, 1, 2, 1, 2, 1])[0]
+                              "regrant_old", "temp_burst", "reregister"], weights=[4, 2, 2, 4, 7, 1, 3, 1, 2, 1, 3])[0]
             wit = {"sequence_seed": seed, "step": step, "op": op, "region": m.idx, "history_tail": history[-6:]}
             history.append((op, m.idx))
-            if op == "grant":
+            if op == "reregister":
+                # the simulator announces the region again (neighbour enabled / teleport / crossing): same circuit address,
+                # a fresh seed, the seed it already has, or one it had earlier (A, B, A)
+                cur = m.newest("Seed")
+                olds = [u for (n, u, t) in m.grants if n == "Seed" and (cur is None or u != cur[0])]
+                r = rng.random()
+                if cur is None or r < 0.5:
+                    x = f"https://sim{m.sess_idx}.example.invalid:12043/cap/seed-re-{rng.getrandbits(32):08x}"
+                elif r < 0.8 and olds:
+                    x = rng.choice(olds)
+                    ctx.count("old_seeds_regranted")
+                else:
+                    x = cur[0]
+                try:
+                    got = sessions[m.sess_idx].register_region(circuit_addr=m.addr, seed_url=x)
+                except Exception as e:
+                    ctx.violation("register-region-raises", "announcing a known region again raised", dict(wit, exc=repr(e)[:200]))
+                    continue
+                if got is not m.region:
+                    ctx.violation("register-region-other-object", "announcing a known region again did not yield that region",
+                                  dict(wit, seed=x))
+                    continue
+                if cur is None or cur[0] != x:
+                    m.add("Seed", x, CapType.NORMAL)
+                ctx.count("regions_reannounced")
+                check_name_lookup(ctx, m, "Seed", wit)
+                check_resolve(ctx, rig, regions, sessions, x, wit)
+            elif op == "grant":
                 caps = {}
                 for _ in range(rng.randint(1, 4)):
                     caps[rng.choice(NAMES)] = rand_url(rng, regions)
@@ -357,7 +408,7 @@ def run_sequence(ctx, seed):
                     m.add(name, url, CapType.PROXY_ONLY)
             elif op == "wrapper":
                 name = rng.choice(["GetTexture", "GetMesh2", "ViewerAsset"])
-                if m.newest(name) is None:
+                if m.newest(name) is None or m.newest("Seed") is None:
                     continue
                 try:
                     wurl = m.region.register_wrapper_cap(name)
@@ -365,15 +416,20 @@ def run_sequence(ctx, seed):
                     ctx.violation("register-wrapper-cap-raises", "register_wrapper_cap raised", dict(wit, exc=repr(e)[:200]))
                     continue
                 m.add(name + "ProxyWrapper", wurl, CapType.WRAPPER)
+                check_wrapper_unique(ctx, regions, m, name, wurl, wit)
             elif op == "name":
                 check_name_lookup(ctx, m, rng.choice(NAMES + PROXY_NAMES + ["Seed", "UpdateScriptAgentUploader", "UploadBakedTextureUploader", "TmpCap"]), wit)
             elif op == "resolve":
                 pool = [u for (_, u, _) in m.grants]
+                if not pool:
+                    continue
                 url = rng.choice(pool) + rng.choice(["", "/", "/extra/path?x=1", "?q=2", "suffix"])
                 check_resolve(ctx, rig, regions, sessions, url, wit)
             elif op == "resolve_unrelated":
                 check_resolve(ctx, rig, regions, sessions, f"https://other.example.invalid/{rng.getrandbits(32):x}", wit)
             elif op == "seedflow":
+                if m.newest("Seed") is None:
+                    continue
                 seed_flow(ctx, rng, rig, m, regions, sessions, wit)
         ctx.nontrivial(("sequence", tuple(history)))
         if len(ctx.samples) < 2:
